@@ -94,6 +94,18 @@ CLAIMED = {
     note="As C11, plus the XML prefix axiom and the stream grammar of the statement as assumptions; the composition over the stream is NOT machine-checked.",
     technique="contract-based deductive verification: VCs from the real AST, string obligations discharged by cvc5 --strings-exp / z3; bounded native stand-in for the stream-level composition",
     design="4 C02/C11"),
+ "C12": dict(
+    category="proof",
+    text="Deductive exception-freedom and frame obligations on the real code along the whole receive path: for every new*Vector kind x every target property kind "
+         "(text, number with plain and sexagesimal formats, switch, BLOB, light, unknown property) with ANY number of children carrying any element names and any "
+         "text / missing values (BLOB size and format any strings), Driver.message_from_client is executed symbolically (loop invariant over the children, switch rule "
+         "loop, regex/float/int/base64 behind raising contracts) and proved to raise nothing and to write nothing but element values of the addressed property; every "
+         "other message kind is proved to be ignored without error; Router.process_message raises nothing for any conformant message, router state and sender; the "
+         "TCP and TTY receive-loop iteration (decode, buffer, dispatch) raises nothing for any bytes read and hands each message to the router with the connection as sender.",
+    note="Trusted: PyVC + encoding; external converters raise only their documented exceptions; user event handlers do not raise; Buffer.process through its C11 contract; "
+         "serialisation abstracted (C07).",
+    technique="contract-based deductive verification: exception-freedom and frame VCs from the real AST by symbolic execution, z3",
+    design="4 C12"),
 }
 
 NOT_YET = "check not built yet (work in progress)"
